@@ -22,12 +22,43 @@ EXPLANATION = (
 TRUSTED = ["containment schema transcription (lib/mx/spec.py)", "layout interpreter"]
 
 
+def stsc_guard_rule(prog, run):
+    """R4 (cross-table): the sample-to-chunk table gets an entry only when there is at least one chunk and one sample per chunk;
+    otherwise it would describe a chunk that the chunk-offset table of the same trak does not list"""
+    from .. import absint as A
+    from .. import mir, sym
+    u = prog.lib
+    fns = [f for f in u.bodies if mir.norm(f).split("::")[-1] == "build_stsc_box" and not u.bodies[f]["in_test_cfg"]]
+    if len(fns) != 1:
+        run.bad("R4", "anchor stsc builder", "sample-to-chunk builder not found")
+        return
+    b = u.bodies[fns[0]]
+    cx = A.Ctx(b, u)
+    ints = [i for i in range(1, b["argc"] + 1) if b["locals"][i]["ty"] in A.INT_RANGE]
+    names = {i: (mir.debug_name(b, i) or "_%d" % i) for i in ints}
+    n = 0
+    for bb, t, name, info in mir.calls(b):
+        if not (name and mir.norm(name).split("::")[-1] == "extend_from_slice" and len(t["args"]) == 2):
+            continue
+        e = sym.expr(b, t["args"][1])
+        srcs = {y[1] for y in sym.walk(e) if isinstance(y, tuple) and len(y) > 1 and y[0] == "arg" and y[1] in ints}
+        if not srcs:
+            continue
+        n += 1
+        for i in ints:
+            ok, h = cx.prove_le0(A.Lin(1) - cx.lin(("arg", i, names[i])), bb)
+            run.check(ok, "R4", "stsc entry needs %s >= 1" % names[i], "entry emitted only under %s != 0 (%s)" % (names[i], h),
+                      "a sample-to-chunk entry is emitted on a path where `%s` may be 0: the table then refers to a chunk the chunk-offset table does not contain" % names[i], mir.loc_of(t))
+    run.floor("R4", n, 1, "stsc entry fields derived from the parameters")
+
+
 def check(prog, run):
     run.rule("R1", "box constructor: size field == 8 + len(payload) == emitted width; header is size ++ fourcc")
     run.rule("R2", "containers tile: container payloads hold child boxes only (after the prescribed full-box / sample-entry prefix)")
     run.rule("R3", "grammar: per configuration, each container has its mandatory children exactly once, optional ones at most once, nothing else; top-level structure of file / init segment / media segment")
     run.rule("R4", "counted tables: count fields equal the number of entries emitted (stts, ctts, stsc, stsz, stco, stss, trun, dref, stsd)")
     run.rule("R5", "mdat tiling: mdat size == 8 + sum of the payloads streamed into it")
+    stsc_guard_rule(prog, run)
     try:
         m = c01.Model(prog)
     except AnchorMissing as e:
